@@ -73,7 +73,19 @@ def contracts(repo):
       note=f"levels answered for: {levels}"+(" (most derived override: Component._uncollect_vars resolves here)" if lv==top else '')))
   return cs
 
+def overlap_contract():
+  from pyvc.symexec import SliceT, NoneT, OneOf, register_spec_fun, as_int, is_intlike
+  from pyvc.values import I, SliceV
+  register_spec_fun('blo',lambda ex,a,st: a[0] if is_intlike(a[0]) else a[0].start, lambda v: v if isinstance(v,int) else v.start)
+  register_spec_fun('bhi',lambda ex,a,st: I(as_int(a[0])+1) if is_intlike(a[0]) else a[0].stop, lambda v: v+1 if isinstance(v,int) else v.stop)
+  T=OneOf(IntT(),SliceT(IntT(),IntT(),NoneT()))
+  return Contract('pymtl3/dsl/Connectable.py::_overlap', view={'x':T,'y':T},
+    cases=[Case('ranges', requires='blo(x) < bhi(x) and blo(y) < bhi(y)', ensures='result == (max(blo(x), blo(y)) < min(bhi(x), bhi(y)))',
+                source="C02: 'a block that writes any bit of a signal runs before every block that reads an overlapping bit': two index/slice ranges overlap iff they share a bit")],
+    modifies=[], returns=None, property_ids=('C02','C09'))
+
 def register(reg):
+  reg.add(overlap_contract())
   prev=None
   for i in range(1,8):
     reg.declare_class(f'ComponentLevel{i}',L[i],bases=((f'ComponentLevel{i-1}',) if i>1 else ()))
